@@ -467,9 +467,96 @@ def option_pairs_stream(ctx, res, tmp, keypath):
 REJ = object()
 
 
+def subclass_contract_stream(ctx, res, tmp, keypath):
+    """what the base classes promise to subclasses and to registered validators: (a) a `BoolField` subclass with its own TRUE_VALUES /
+    FALSE_VALUES accepts exactly its own tokens, whatever the stock field (or another subclass) validated before; (b) a number field
+    built on another number type (`Decimal`, `Fraction`) accepts what it returns — validating an accepted result again gives an equal
+    value — and enforces its bounds on instances of its own type; (c) several validators on one field are a chain (each gets what the
+    one before returned), on leaves and on list items, and the chain's result validates again to itself"""
+    import ext
+    import cincoconfig as cc
+    from cincoconfig.support import validator as register
+    X = ext.ns()
+    cfg = cc.Schema()()
+    # (a)
+    for first in ("stock-first", "subclass-first"):
+        stock, loc, strict = cc.BoolField(), X["LocalisedBoolField"](), X["StrictBoolField"]()
+        order = [(stock, "stock"), (loc, "localised"), (strict, "strict")]
+        if first == "subclass-first":
+            order = order[::-1]
+        for f, _ in order:
+            try:
+                f.validate(cfg, "true")
+            except Exception:  # noqa
+                pass
+        table = [(loc, "ja", True), (loc, "Wahr", True), (loc, "nein", False), (loc, "AUS", False), (loc, "yes", True), (loc, "maybe", REJ),
+                 (strict, "true", True), (strict, "FALSE", False), (strict, "yes", REJ), (strict, "1", REJ), (strict, "on", REJ), (strict, "n", REJ), (strict, "off", REJ),
+                 (stock, "yes", True), (stock, "ja", REJ), (stock, "off", False)]
+        for f, text, want in table:
+            case = {"stream": "subclass-contract", "field": type(f).__name__, "value": text, "validated_first": first}
+            res.case(stable(case), kind="subclass-contract:bool")
+            try:
+                got = f.validate(cfg, text)
+            except Exception:  # noqa
+                got = REJ
+            if got is not want and not (got is REJ and want is REJ):
+                res.violate("C05:accepts-exactly:bool-subclass", "a BoolField subclass with its own token tables does not accept exactly its own tokens",
+                            dict(case, got=None if got is REJ else got, want=None if want is REJ else want))
+    # (b)
+    D, Fr = X["Decimal"], X["Fraction"]
+    price = X["DecimalField"](min=D("0"), max=D("999.99"))
+    ratio = cc.NumberField(Fr, min=Fr(0), max=Fr(1))
+    for f, values in ((price, ["19.99", 0, "999.99", D("5.5"), 7.25]), (ratio, [Fr(1, 3), Fr(1, 2), "1/4", 0, 1])):
+        for v in values:
+            case = {"stream": "subclass-contract", "field": "number-on-%s" % type(f.validate(cfg, 0)).__name__, "value": repr(v)}
+            res.case(stable(case), kind="subclass-contract:number")
+            try:
+                once = f.validate(cfg, v)
+            except Exception:  # noqa
+                res.case(None, kind="subclass-contract:number:rejected")
+                continue
+            try:
+                twice = f.validate(cfg, once)
+                okk = twice == once and type(twice) is type(once)
+            except Exception as e:  # noqa
+                okk = False
+            if not okk:
+                res.violate("C05:idem-reject:number-type", "a number field built on another number type rejects (or changes) the very value it returned", dict(case, accepted=repr(once)))
+    for f, over in ((price, D("1000")), (ratio, Fr(3, 2))):
+        try:
+            f.validate(cfg, over)
+            res.violate("C05:accepts-exactly:number-type", "a bound of a number field built on another number type is not enforced on an instance of that type", {"stream": "subclass-contract", "value": repr(over)})
+        except ValueError as e:
+            if "convert" in str(e):
+                res.violate("C05:accepts-exactly:number-type", "an instance of the field's own number type is refused as 'cannot be converted'", {"stream": "subclass-contract", "value": repr(over), "error": str(e)[:80]})
+        except Exception:  # noqa
+            pass
+    # (c)
+    s = cc.Schema()
+    s.endpoint = cc.StringField(validator=lambda c, v: v.strip().lower().rstrip("/"))
+    s.peers = cc.ListField(cc.StringField(validator=lambda c, v: {"db": "db.example.com", "cache": "cache.example.com"}.get(v, v)), default=lambda: [])
+
+    @register(s.endpoint)
+    def inside(c, v):
+        if "example.com" not in v:
+            raise ValueError("endpoint must be inside example.com")
+        return v
+    register(s.peers.field)(lambda c, v: v if "." in v else (_ for _ in ()).throw(ValueError("host name must be fully qualified")))
+    c2 = s()
+    res.case("subclass-contract:chain", kind="subclass-contract:chain")
+    try:
+        got = [s._fields["endpoint"].validate(c2, " HTTPS://API.Example.COM/v1/ "), list(s._fields["peers"].validate(c2, ["db", "cache", "mx.example.com"]))]
+        again = [s._fields["endpoint"].validate(c2, got[0]), list(s._fields["peers"].validate(c2, got[1]))]
+    except Exception as e:  # noqa
+        got, again = "raised %s: %s" % (type(e).__name__, str(e)[:60]), None
+    if got != ["https://api.example.com/v1", ["db.example.com", "cache.example.com", "mx.example.com"]] or again != got:
+        res.violate("C05:chain-result", "registered validators are not applied as a chain (each to the result of the one before), or the chain's result does not validate to itself",
+                    {"stream": "subclass-contract", "got": repr(got), "again": repr(again)})
+
 def run(ctx, n_quick=3000, n_thorough=100000):
     res = Result()
     tmp, keypath, key = setup_tmp(ctx)
+    guard(res, "C05", subclass_contract_stream, ctx, res, tmp, keypath)
     rng = ctx.rng
     cases = list(CORPUS)
     n = ctx.n(n_quick, n_thorough)
